@@ -441,6 +441,13 @@ impl<'env> Context<'env> {
         Ok(())
     }
 
+    /// Charges additional depth to an activation that was already admitted by a
+    /// checked push.  This never fails; the next checked push sees the new depth.
+    #[cfg(feature = "multi_template")]
+    pub fn charge_depth(&mut self, delta: usize) {
+        self.outer_stack_depth += delta;
+    }
+
     /// Decrease the stack depth.
     #[cfg(feature = "multi_template")]
     pub fn decr_depth(&mut self, delta: usize) {
